@@ -1583,7 +1583,11 @@ class Time(Atomic):
             when = _TaskManager().get_time()
         tup = time.localtime(when)
 
-        self.value = (tup[3], tup[4], tup[5], int((when - int(when)) * 100))
+        # round to the microsecond before truncating to hundredths, the
+        # fraction of a time like 8:00:00.29 is slightly less than 0.29
+        hundredth = min(int(round((when - int(when)) * 1000000.0)) // 10000, 99)
+
+        self.value = (tup[3], tup[4], tup[5], hundredth)
 
         return self
 
